@@ -6,6 +6,6 @@ CONSTANTS
   ProgLen = 4
   MaxChoices = {1, 2, 3}
   Limit = 6
-INVARIANTS StepBound SizeBound FatalOnlyOverflow NoErrUnlessFatal Emit
+INVARIANTS StepBound SizeBound FatalOnlyOverflow NoErrUnlessFatal RunAgrees Emit
 PROPERTIES Terminates Variant FailureIsNoop RecoverableContinues
 CHECK_DEADLOCK FALSE
